@@ -48,6 +48,20 @@ def run_all(scenarios, procs=None, chunksize=4):
                 out[i] = h.get(int(os.environ.get('VERIF_CASE_WALL', '120')) * 2 + 60)
             except Exception as e:  # a crashed/timed-out harness process: infrastructure, not a verdict
                 out[i] = {'harness_error': 'case did not finish: ' + repr(e), 'ops': [], 'calls': []}
+    # a run that ended stuck is repeated once in a process of its own (DetSim is deterministic per scenario: a genuine hang
+    # reproduces; one that does not was disturbed by an earlier run in the same harness process and is counted, not reported)
+    again = [i for i, o in enumerate(out) if o and o.get('stuck')]
+    if again:
+        with ctx.Pool(min(procs, len(again)), initializer=_init, maxtasksperchild=1) as pool:
+            hs = [(i, pool.apply_async(_one, (scenarios[i],))) for i in again]
+            for i, h in hs:
+                try:
+                    o2 = h.get(int(os.environ.get('VERIF_CASE_WALL', '120')) * 2 + 60)
+                except Exception:
+                    continue
+                if not o2.get('stuck'):
+                    o2['first_run_was_stuck'] = out[i]['stuck']
+                    out[i] = o2
     return out
 
 
